@@ -73,6 +73,9 @@ def evalMChain (cur : M) : List String → PyM M
   | "D" :: rest => do
     let r ← dnf defaultFuel [] cur
     evalMChain r rest
+  | "X" :: rest => do
+    let r ← cur.withoutExtras
+    evalMChain r rest
   | o :: t :: rest => do
     let b ← parseMarker t
     let r ← (match o with
